@@ -90,6 +90,7 @@ type (
 
 // lock is re-enterant to support MULTI
 func (dsc *dataStoreCommand) lock() {
+	verifPoint("ds:before-lock", 0, "")
 	if !atomic.CompareAndSwapUint32(&dsc.ds.multiLock, dsc.id, dsc.id) {
 		// multi-lock not acquired, acquire a single lock
 		dsc.ds.mu.Lock()
@@ -100,6 +101,7 @@ func (dsc *dataStoreCommand) unlock() {
 	if !atomic.CompareAndSwapUint32(&dsc.ds.multiLock, dsc.id, dsc.id) {
 		// release the single lock
 		dsc.ds.mu.Unlock()
+		verifPoint("ds:after-unlock", 0, "")
 	}
 }
 
@@ -108,10 +110,12 @@ func (dsc *dataStoreCommand) unlockAndUnblock(uk *unblockKey) {
 	if !atomic.CompareAndSwapUint32(&dsc.ds.multiLock, dsc.id, dsc.id) {
 		// release the single lock
 		dsc.ds.mu.Unlock()
+		verifPoint("ds:after-unlock", 0, "")
 	}
 }
 
 func (dsc *dataStoreCommand) acquireExclusive() {
+	verifPoint("ds:before-lock", 0, "")
 	// give ownership to the caller
 	dsc.ds.mu.Lock()
 
@@ -124,6 +128,7 @@ func (dsc *dataStoreCommand) releaseExclusive() {
 	atomic.StoreUint32(&dsc.ds.multiLock, dsc.id)
 	// release and let the next subsequent command execute (if any)
 	dsc.ds.mu.Unlock()
+	verifPoint("ds:after-unlock", 0, "")
 }
 
 func (dsc *dataStoreCommand) dumpKey(l lane.Lane, keyName string) {
